@@ -199,6 +199,94 @@ Proof.
   reflexivity.
 Qed.
 
+
+(* ------------------------------------------------------------------ round 5: wider domains, rejected widths *)
+
+(* 2-D: every odd width up to the NUMBER OF ELEMENTS (not only up to both extents): where the window does not fit
+   into the image there is no interior point, every sample is an edge sample and is restored from the input.
+   In particular a one-row / one-column image (an axis of length one) is returned unchanged for width >= 3. *)
+Theorem median_filter2_refines_spec_size x width :
+  Z.odd width = true -> 1 <= width <= lenZ x * Z.of_nat (ncols x) ->
+  median_filter2 x width = F2Ok (median_filter2_spec x width).
+Proof.
+  intros Ho H1. unfold median_filter2, median_filter2_spec.
+  unfold medfilt2_kernel, medfilt2_istart, medfilt2_iend0, medfilt2_iend1, medfilt2_edge_row, medfilt2_edge_col.
+  rewrite Z.min_l by lia.
+  assert (E : Z.even width || (width <? 1) = false).
+  { rewrite <- Z.negb_odd, Ho. cbn. lia. }
+  rewrite E. f_equal.
+  assert (Hodd : width mod 2 = 1) by (rewrite Zmod_odd, Ho; reflexivity).
+  set (h := width / 2). assert (W : width = 2 * h + 1) by lia.
+  apply map_seq_ext. intros a Ha. cbv zeta. apply map_seq_ext. intros b Hb.
+  set (i := Z.of_nat a). set (j := Z.of_nat b). unfold interior.
+  destruct ((i <? Z.quot (width - 1) 2) || (i >? lenZ x - Z.quot (width + 1) 2)
+            || ((j <? Z.quot (width - 1) 2) || (j >? Z.of_nat (ncols x) - Z.quot (width + 1) 2))) eqn:Ee.
+  - replace ((h <=? i) && (i <=? lenZ x - 1 - h) && ((h <=? j) && (j <=? Z.of_nat (ncols x) - 1 - h))) with false by lia.
+    reflexivity.
+  - replace ((h <=? i) && (i <=? lenZ x - 1 - h) && ((h <=? j) && (j <=? Z.of_nat (ncols x) - 1 - h))) with true by lia.
+    unfold medfilt2_at, window2_median, window2. fold h.
+    replace (Z.to_nat (2 * h + 1)) with (Z.to_nat width) by lia.
+    replace ((2 * h + 1) * (2 * h + 1)) with (width * width) by (rewrite W; reflexivity).
+    do 2 f_equal. apply flat_map_seq_ext. intros t Ht. apply map_seq_ext. intros u Hu. unfold padded2.
+    replace ((0 <=? i - h + Z.of_nat t) && (i - h + Z.of_nat t <? lenZ x) && (0 <=? j - h + Z.of_nat u)
+             && (j - h + Z.of_nat u <? Z.of_nat (ncols x))) with true by lia.
+    reflexivity.
+Qed.
+
+(* an image with an axis shorter than the window has no interior point: the result is the input *)
+Theorem median_filter2_no_interior x width :
+  Z.odd width = true -> 1 <= width <= lenZ x * Z.of_nat (ncols x) ->
+  (lenZ x < width \/ Z.of_nat (ncols x) < width) ->
+  median_filter2 x width = F2Ok (map (fun a => map (fun b => get2 x (Z.of_nat a) (Z.of_nat b)) (seq 0 (ncols x)))
+                                     (seq 0 (length x))).
+Proof.
+  intros Ho H1 Hs. rewrite median_filter2_refines_spec_size by assumption. f_equal.
+  unfold median_filter2_spec. apply map_seq_ext. intros a Ha. cbv zeta. apply map_seq_ext. intros b Hb.
+  assert (Hodd : width mod 2 = 1) by (rewrite Zmod_odd, Ho; reflexivity).
+  unfold interior.
+  replace ((width / 2 <=? Z.of_nat a) && (Z.of_nat a <=? lenZ x - 1 - width / 2)
+           && ((width / 2 <=? Z.of_nat b) && (Z.of_nat b <=? Z.of_nat (ncols x) - 1 - width / 2))) with false by lia.
+  reflexivity.
+Qed.
+
+(* width: what the code does with every width.  The kernel handed to scipy is min(width, number of elements); scipy
+   rejects even kernels, so:  ValueError  <->  that kernel is even (or < 1) -- in particular EVERY even width not
+   exceeding the length, and every width beyond an even length *)
+Theorem median_filter1_rejects xs width :
+  median_filter1 xs width = F1ValueError <-> (Z.even (Z.min width (lenZ xs)) = true \/ Z.min width (lenZ xs) < 1).
+Proof.
+  unfold median_filter1, medfilt1_kernel.
+  destruct (Z.even (Z.min width (lenZ xs))) eqn:E; cbn [orb].
+  - split; [intros _; left; reflexivity|reflexivity].
+  - destruct (Z.min width (lenZ xs) <? 1) eqn:E2.
+    + split; [intros _; right; lia|reflexivity].
+    + split; [discriminate|intros [H|H]; [discriminate|lia]].
+Qed.
+
+Theorem median_filter1_even_width_rejected xs width :
+  Z.even width = true -> width <= lenZ xs -> median_filter1 xs width = F1ValueError.
+Proof. intros He Hw. apply median_filter1_rejects. left. rewrite Z.min_l by lia. exact He. Qed.
+
+(* an odd window wider than an odd-length array: no interior point, the array is returned unchanged *)
+Theorem median_filter1_wide_identity xs width :
+  Z.odd width = true -> Z.odd (lenZ xs) = true -> lenZ xs < width -> median_filter1 xs width = F1Ok xs.
+Proof.
+  intros Ho Hn Hw. unfold median_filter1, medfilt1_kernel, medfilt1_istart, medfilt1_iend, medfilt1_edge.
+  rewrite Z.min_r by lia.
+  assert (E : Z.even (lenZ xs) || (lenZ xs <? 1) = false).
+  { rewrite <- Z.negb_odd, Hn. cbn. destruct xs; [discriminate|unfold lenZ; cbn [length]; lia]. }
+  rewrite E. f_equal.
+  assert (Hodd : width mod 2 = 1) by (rewrite Zmod_odd, Ho; reflexivity).
+  assert (Hodn : lenZ xs mod 2 = 1) by (rewrite Zmod_odd, Hn; reflexivity).
+  transitivity (map (fun t => nth t xs 0%Q) (seq 0 (length xs))).
+  - apply map_seq_ext. intros t Ht. cbv zeta.
+    replace ((Z.of_nat t <? Z.quot (width - 1) 2) || (Z.of_nat t >? lenZ xs - Z.quot (width + 1) 2)) with true
+      by (unfold lenZ in *; lia).
+    unfold getQ. destruct (Z.of_nat t <? 0) eqn:E0; [lia|]. rewrite Nat2Z.id. reflexivity.
+  - clear. induction xs as [|a l IH]; [reflexivity|]. cbn [length seq map nth]. f_equal.
+    rewrite <- seq_shift, map_map. exact IH.
+Qed.
+
 (* ------------------------------------------------------------------ median(array, axis=...) *)
 
 Lemma np_median_spec r : np_median r = median_spec r true.
